@@ -120,6 +120,16 @@ def run(ctx):
         knl_n = float(np.atleast_1d(hf._get_spec(kk, dd)[0])[0])
         if abs(knl_n / knl_u - 1) > 0.15:
             viol("knl-condition/non-uniform-grid", f"non-linear scale on a non-uniform k grid is {knl_n:.4g}, on the uniform grid {knl_u:.4g}")
+        # the same array *objects* refilled in place between two calls (one buffer per redshift is a common pattern): the result must follow
+        # the current contents
+        bk_, bd_ = T.k.copy(), T.delta_k.copy()
+        hf.halofit(bk_, bd_, None, 0.0, T.cosmo, True)
+        bd_ *= 0.35
+        second = hf.halofit(bk_, bd_, None, 0.0, T.cosmo, True)
+        fresh_ = hf.halofit(bk_.copy(), bd_.copy(), None, 0.0, T.cosmo, True)
+        if not np.array_equal(second, fresh_):
+            viol("not-a-function-of-its-inputs/in-place-refill", f"halofit called twice on the same array objects, refilled in place in between, returns a spectrum {float(np.max(np.abs(second / fresh_ - 1))):.3g} away from the one for fresh arrays with the same contents",
+                 {"sequence": "halofit(k, d); d *= 0.35; halofit(k, d) vs halofit(k.copy(), d.copy())"})
         # a grid that contains the cut wavenumber 0.005 itself: "k <= 0.005" includes the boundary
         from scipy.interpolate import InterpolatedUnivariateSpline as Spl_
         kb = 0.001 * np.arange(1, 3001)
